@@ -52,7 +52,7 @@ class MaxMin(Sequential, ABC):
         if a.ndim == 0:
             return grad
 
-        if hasattr(axis, "__iter__"):
+        if hasattr(axis, "__iter__") and np.ndim(axis) > 0:
             axis = tuple(ax % a.ndim for ax in axis)
             axis = None if len(axis) == a.ndim else tuple(sorted(axis))
         elif axis is not None:  # pragma: no cover
